@@ -194,7 +194,21 @@ func (*Elements).SumMerge
     assert @appended-distinct Distinct(elems(*el), len(*el))
   }
 
-// Sort: in place, by name, a permutation (sort.Sort is assumed; Len/Less/Swap are the obvious ones)
+// the sort.Interface of Elements: the order sort.Sort is assumed to establish is the order of THESE methods
+func (Elements).Len returns (r)
+  props C01 C02 C08
+  ensures @len r == len(el)
+func (Elements).Less returns (r)
+  props C01 C02 C08
+  requires 0 <= i && i < len(el) && 0 <= j && j < len(el)
+  ensures @by-name [C01 C02] r == (el[i].Name < el[j].Name)
+func (Elements).Swap
+  props C01 C02 C08
+  requires 0 <= i && i < len(el) && 0 <= j && j < len(el)
+  modifies elems(el)
+  ensures @swapped [C01 C02] el[i] == old(el[j]) && el[j] == old(el[i]) && (forall k int :: {el[k]} 0 <= k && k < len(el) && k != i && k != j ==> el[k] == old(el[k]))
+
+// Sort: in place, by name, a permutation (sort.Sort is assumed; Len/Less/Swap are proved above)
 func (Elements).Sort
   props C01 C02
   calluse Sort#1 elements
